@@ -428,7 +428,7 @@ fn open_sequence(case: &Value) -> Value {
     let names = case["crash_names"].as_array().cloned().unwrap_or_default();
     let mut log = Vec::new();
     for (i, n) in names.iter().enumerate() {
-        if i >= 2 { break; }
+        if i + 1 >= names.len().max(3) { break; }
         let crash = n.as_str();
         let (code, out) = run_child(&base, crash);
         if crash.is_some() && code == Some(0) { return json!({ "ok": { "unrealisable": true, "why": format!("start {} did not reach crash point {:?}", i, crash) } }); }
